@@ -154,14 +154,17 @@ def part_lexer_corr(ctx, part):
             part.failures.append(Failure("lexer_hang", "lexer/parser.Read does not terminate on %r" % b[:80],
                                          {"b64": base64.b64encode(b).decode()}))
             continue
-        if "panic" in o:
-            part.failures.append(Failure("lexer_panic", "parser.Read panics on %r: %s" % (b[:80], o["panic"]),
+        if o.get("end") == "panic" or "panic" in o:
+            part.failures.append(Failure("lexer_panic", "parser.Read panics on %r: %s" % (b[:80], o.get("panic")),
                                          {"b64": base64.b64encode(b).decode()}))
             continue
         part.count("end=" + o["end"])
         ntok = len(o["toks"]) - 1
         if ntok >= 2 or o["end"] != "eos":
             part.nontrivial.add(b)
+        if o["end"] == "eos" and not o.get("eof"):
+            part.failures.append(Failure("not_consumed", "end of stream answered before every rune was consumed on %r" % b[:80],
+                                         {"b64": base64.b64encode(b).decode()}))
         if o["end"] == "error":
             part.failures.append(Failure("read_error", "parser.Read answers `read error` on %r" % b[:80],
                                          {"b64": base64.b64encode(b).decode()}))
